@@ -118,7 +118,7 @@ func (f *frame) val(v ssa.Value) Val {
 	case *ssa.Const:
 		t := x.Type()
 		if x.Value == nil { // zero value / nil
-			return Val{T: g.zeroOf(t), Ty: t}
+			return Val{T: g.zeroOf(t), Ty: t, SSA: x}
 		}
 		switch sortOf(t) {
 		case "Int":
@@ -132,7 +132,7 @@ func (f *frame) val(v ssa.Value) Val {
 			}
 			return Val{T: "false", Ty: t}
 		case "Str":
-			return Val{T: g.strLit(constant.StringVal(x.Value)), Ty: t}
+			return Val{T: g.strLit(constant.StringVal(x.Value)), Ty: t, SSA: x}
 		}
 		n := g.fresh("const")
 		g.declare(n, sortOf(t))
@@ -154,6 +154,9 @@ func (f *frame) val(v ssa.Value) Val {
 		return Val{T: "0", Ty: x.Type()}
 	}
 	if r, ok := f.regs[v]; ok {
+		if r.SSA == nil {
+			r.SSA = v
+		}
 		return r
 	}
 	// value not yet defined (can happen for phi operands from unreachable blocks)
@@ -363,7 +366,7 @@ func (f *frame) lookupLocal(li *loopInfo, phiVals map[*ssa.Phi]Val, at *ssa.Basi
 		for _, b := range f.fn.Blocks {
 			for _, in := range b.Instrs {
 				dr, ok := in.(*ssa.DebugRef)
-				if !ok || dr.IsAddr {
+				if !ok {
 					continue
 				}
 				obj := dr.Object()
@@ -371,6 +374,19 @@ func (f *frame) lookupLocal(li *loopInfo, phiVals map[*ssa.Phi]Val, at *ssa.Basi
 					continue
 				}
 				if tv, isVar := obj.(*types.Var); !isVar || tv.IsField() {
+					continue
+				}
+				if dr.IsAddr {
+					// an address-taken local: the name denotes the variable itself (struct: its reference;
+					// otherwise the current content of its cell)
+					if rv, have := f.regs[dr.X]; have {
+						if ins, isInstr := dr.X.(ssa.Instruction); isInstr && ins.Block().Dominates(at) {
+							rr := rv
+							rr.Cell = isCellType(dr.X.Type())
+							rr.Loc = nil
+							return rr, true
+						}
+					}
 					continue
 				}
 				// the value this occurrence of the variable denotes, and where that value is defined
@@ -452,7 +468,7 @@ func (f *frame) localsAt(b *ssa.BasicBlock) func(string) (Val, bool) {
 }
 
 func (f *frame) invEnv(li *loopInfo, heap *Heap, phiVals map[*ssa.Phi]Val, at *ssa.BasicBlock) *Env {
-	env := &Env{g: f.g, vars: map[string]Val{}, heap: heap, old: f.entry, callResults: f.callResults}
+	env := &Env{g: f.g, vars: map[string]Val{}, heap: heap, old: f.entry, callResults: f.callResults, headHeap: li.headHeap}
 	f.bindParams(env)
 	// current values of loop variables shadow the (entry) parameter values; name0 / old(name) give the entry value
 	for _, in := range li.header.Instrs {
